@@ -40,7 +40,7 @@ vt_proof! { unwind = 2; fn c41_function_converter_all_dates() {
     assert!(dt::date_to_days(y as i64, m, d) - 719163 == ref_days(y as i64, m as i64, d as i64), "role=function_converter_matches_gregorian");
 }}
 
-// @vt prop=C41 tier=quick bound="literal converter date_to_days_since_epoch (year loop): every valid date in years 1900..=2100" outside="years outside 1900..=2100 in the quick tier (thorough: 1700..=2300)" timeout=1800
+// @vt prop=C41 tier=quick bound="literal converter date_to_days_since_epoch (year loop): every valid date in years 1900..=2100" outside="years outside 1900..=2100 in the quick tier (thorough: 1800..=2200)" timeout=1800
 vt_proof! { unwind = 135; fn c41_literal_converter_1900_2100() {
     let (y, m, d) = any_date(1900, 2100);
     kani::cover!(y == 1900 && m == 3 && d == 1, "w:after_non_leap_february_1900");
@@ -48,11 +48,11 @@ vt_proof! { unwind = 135; fn c41_literal_converter_1900_2100() {
     assert!(lit::date_to_days_since_epoch(y, m, d) as i64 == ref_days(y as i64, m as i64, d as i64), "role=literal_converter_matches_gregorian");
 }}
 
-// @vt prop=C41 tier=thorough bound="literal converter date_to_days_since_epoch (year loop): every valid date in years 1700..=2300 (loop bound 330 = 2300-1970)" outside="years outside 1700..=2300 (the full range 1..=9999, unwind 8035, was still running after 100 minutes in the validation run)" timeout=7200 mem=24
-vt_proof! { unwind = 335; fn c41_literal_converter_1700_2300() {
-    let (y, m, d) = any_date(1700, 2300);
+// @vt prop=C41 tier=thorough bound="literal converter date_to_days_since_epoch (year loop): every valid date in years 1800..=2200 (loop bound 230 = 2200-1970)" outside="years outside 1800..=2200 (validation runs: 1..=9999 at unwind 8035 and 1700..=2300 at unwind 335 both hit the 2 h cap; 1800..=2200 takes 65 min)" timeout=7200 mem=24
+vt_proof! { unwind = 235; fn c41_literal_converter_1800_2200() {
+    let (y, m, d) = any_date(1800, 2200);
     kani::cover!(y == 1800 && m == 2 && d == 28, "w:early_century_year");
-    kani::cover!(y == 2300 && m == 3 && d == 1, "w:late_century_year");
+    kani::cover!(y == 2200 && m == 3 && d == 1, "w:late_century_year");
     assert!(lit::date_to_days_since_epoch(y, m, d) as i64 == ref_days(y as i64, m as i64, d as i64), "role=literal_converter_matches_gregorian");
 }}
 
